@@ -478,8 +478,20 @@ def _result(spec, viols, stats, digests, compared):
     return {"violations": viols, "stats": stats, "sig": sig, "nontrivial": compared >= 2, "sample": sample, "digest": dg, "trace": None}
 
 
+def _sym_units_in(text):
+    import re
+
+    bare = re.sub(r"\|[^|\]]*\|\]", "]", text)
+    return {u for u in UNITS_SYM if u.format("[<]", "[>]") in bare}
+
+
 def shrink_candidates(spec):
+    # a simplification must stay inside the input class of the run: replacing a unit by a symmetric one (CC, COC ...) would turn
+    # any violation into the recorded finding F-symmetric under the tags of the original class
+    have = _sym_units_in(spec["text"])
     for t in gc.simpler_texts(spec["text"]):
+        if _sym_units_in(t) - have:
+            continue
         c = json.loads(json.dumps(spec))
         c["text"] = t
         yield c
